@@ -16,7 +16,10 @@ from ..astutil import calls_in, call_name, where
 from ..cfg import build_cfg
 from ..facts import instance_fields
 from ..fold import Folder, Unfoldable
-from ..model import AnalysisError, ClassInfo, unparse, walk_no_nested
+import re
+
+from ..model import AnalysisError, ClassInfo, unparse, walk_no_nested, canonical_name
+from ..symtext import Expander, effect_calls
 from ..tables import STRING_KIND_DTYPES
 from ..logic import known
 from .c06 import run_atom, handler_rule
@@ -73,6 +76,7 @@ def run(prog, rep):
     S = an.s
     cls = prog.cls("BaseProperty")
     dmod = prog.module_of("dtypes")
+    fd0 = Folder(prog)
 
     # ----------------------------------------------------------------- OWN-3
     rep.rule("OWN-3", "stores to / mutations of <x>._values occur only in BaseProperty.{%s}; stores to _dtype only in {%s}; "
@@ -133,7 +137,7 @@ def run(prog, rep):
                 if isinstance(c.func, ast.Attribute) and unparse(c.func.value) == "%s._values" % me and c.func.attr in ("append", "extend", "insert"):
                     vals.append(c.args[-1])
             for v in vals:
-                ok, conv = _conversion_of(v, f, me)
+                ok, conv = _conversion_of(v, f, me, prog)
                 rep.check(ok, "PROV-3", "%s: _values <- %s" % (f.short, unparse(v)[:50]), "conversion result",
                           "%s puts `%s` into _values without dtypes.get(<value>, self.dtype)" % (f.short, unparse(v)[:70]), where(f, st),
                           witness="a raw input (e.g. the text '3' for dtype int) is stored unconverted")
@@ -220,7 +224,17 @@ def run(prog, rep):
         txt = unparse(f.node)
         rep.check("self.get(dtype + '%s', %s)" % (suf, default) in txt, "TAB-1", "dtypes.%s dispatches on dtype + '%s'" % (fn, suf), "ok",
                   "dtypes.%s no longer dispatches through the module table with %s as default" % (fn, default), f.where)
-        rep.check("dtype.endswith('-tuple')" in txt, "TAB-1", "dtypes.%s handles n-tuple types" % fn, "ok",
+        routed = False
+        for eff in effect_calls(prog, f, lambda c, suf=suf: canonical_name(prog, f, c.func) == "dtypes.tuple%s" % suf):
+            for t0, p0 in eff.guards():
+                m0 = re.match(r"^%s\.endswith\((.+)\)$" % re.escape(f.params[1]), t0)
+                if m0 and p0:
+                    try:
+                        lit = fd0.try_fold(ast.parse(m0.group(1), mode="eval").body, dmod, default=None)
+                    except SyntaxError:
+                        lit = None
+                    routed = routed or lit == "-tuple"
+        rep.check(routed, "TAB-1", "dtypes.%s handles n-tuple types" % fn, "ok",
                   "dtypes.%s no longer routes '<n>-tuple' types to the tuple converter" % fn, f.where)
     slf = dmod.assigns.get("self", [])
     rep.check(bool(slf) and "__dict__" in unparse(slf[-1]), "TAB-1", "dtypes.self is the module dictionary", "ok",
@@ -231,8 +245,6 @@ def run(prog, rep):
                       "boolean_get -> True/False, date_get -> strptime(.., FORMAT_DATE).date(), time_get -> strptime(.., FORMAT_TIME)"
                       ".time(), datetime_get -> strptime(.., FORMAT_DATETIME); defaults via default_values(<literal>); "
                       "tuple_get -> list of stripped strings of the required length; no converter returns its argument unchanged")
-    fd0 = Folder(prog)
-
     def fold_const(e):
         return fd0.try_fold(e, dmod, default=None)
     for name, allowed in sorted(RETURN_TYPES.items()):
@@ -241,11 +253,12 @@ def run(prog, rep):
             raise AnalysisError("dtypes.%s vanished" % name)
         rep.saw_function(f)
         g = build_cfg(f)
+        xr = Expander(f, g, inline=prog)
         rets = [n for n in g.nodes if n.kind == "return"]
         rep.floor("RET-1", len(rets), 2, "returns in %s" % name)
         for rn in rets:
-            r = rn.ast.value
-            ts = value_type(r, g, rn, f.params, fold_const) if r is not None else set(["None"])
+            r = xr.expand(rn.ast.value, rn) if rn.ast.value is not None else None
+            ts = value_type(r, g, rn, f.params, fold_const, inline_call=lambda c: xr._inline_call(c, None, 0, set())) if r is not None else set(["None"])
             rep.check(ts <= set(allowed), "RET-1", "%s returns %s" % (name, "/".join(sorted(ts))), "typed result",
                       "%s returns `%s` of shape %s, not one of %s (e.g. a pass-through keeps foreign types / sub-second parts)"
                       % (name, unparse(r)[:70] if r is not None else "None", sorted(ts), list(allowed)), where(f, rn.ast),
@@ -266,19 +279,26 @@ def run(prog, rep):
         for k, ty in DEFAULT_TYPES.items():
             rep.check(k in d and type(d[k]) is ty, "RET-1", "default value of %s" % k, repr(d.get(k)),
                       "default value of dtype %s is %r, not a %s" % (k, d.get(k), ty.__name__), where(dv, table[0]))
-    for kind, form in (("datetime", "dt.datetime.now().replace(microsecond=0)"), ("date", "dt.datetime.now().date()"),
-                       ("time", "dt.datetime.now().replace(microsecond=0).time()")):
-        rets = [unparse(n.value) for n in walk_no_nested(dv.node) if isinstance(n, ast.Return) and n.value is not None]
-        rep.check(form in rets, "RET-1", "default value of %s has no sub-second part" % kind, form,
-                  "the default %s is not built as %s" % (kind, form), dv.where, witness="an empty %s value carries microseconds" % kind)
+    dg = build_cfg(dv)
+    dx = Expander(dv, dg, inline=prog)
+    dts = set()
+    for rn in [n for n in dg.nodes if n.kind == "return" and n.ast.value is not None]:
+        dts |= value_type(dx.expand(rn.ast.value, rn), dg, rn, dv.params, fold_const, inline_call=lambda c: dx._inline_call(c, None, 0, set()))
+    typed = set(t for t in dts if not t.startswith("?:") or t.startswith("?:default_dtype_value") or "[" in t)
+    bad = sorted(t for t in dts if t in ("datetime-now", "time-with-microseconds") or t.startswith("param"))
+    for kind in ("datetime", "date", "time"):
+        rep.check(kind in dts and not bad, "RET-1", "default value of %s has no sub-second part" % kind, str(sorted(dts)),
+                  "default_values returns %s: the default %s is missing or carries microseconds" % (sorted(dts), kind), dv.where,
+                  witness="an empty %s value carries microseconds" % kind)
     tg = dmod.functions.get("tuple_get")
     rep.saw_function(tg)
     g = build_cfg(tg)
     rets = [n for n in g.nodes if n.kind == "return"]
     cnt_param = tg.params[1] if len(tg.params) > 1 else "count"
     shapes = set()
+    tgx = Expander(tg, g, inline=prog)
     for rn in rets:
-        ts = value_type(rn.ast.value, g, rn, tg.params, fold_const) if rn.ast.value is not None else set(["None"])
+        ts = value_type(tgx.expand(rn.ast.value, rn), g, rn, tg.params, fold_const) if rn.ast.value is not None else set(["None"])
         shapes |= ts
         if "strlist" in ts and isinstance(rn.ast.value, ast.Name):
             lv = rn.ast.value.id
@@ -352,21 +372,23 @@ def run(prog, rep):
     rep.assume("python's int()/float()/str()/strptime return the types their names say")
 
 
-def _conversion_of(v, f, me):
-    """(ok, conversion node) - v is [] or built from dtypes.get(x, self.dtype|self._dtype)"""
-    from ..astutil import local_assignments
+def _conversion_of(v, f, me, prog=None):
+    """(ok, conversion node) - v is [] or built from dtypes.get(x, self.dtype|self._dtype) (locals expanded)"""
+    x = Expander(f)
 
     def is_get(c):
-        return isinstance(c, ast.Call) and call_name(c) == "dtypes.get" and len(c.args) == 2 \
-            and unparse(c.args[1]) in ("%s.dtype" % me, "%s._dtype" % me)
-    if isinstance(v, ast.List) and not v.elts:
+        return isinstance(c, ast.Call) and (canonical_name(prog, f, c.func) if prog is not None else call_name(c)) == "dtypes.get" \
+            and len(c.args) == 2 and unparse(c.args[1]) in ("%s.dtype" % me, "%s._dtype" % me)
+    vx = x.expand(v)
+    if isinstance(vx, ast.List) and not vx.elts:
         return True, None
-    if is_get(v):
+    if is_get(vx):
         return True, v
-    if isinstance(v, ast.ListComp) and is_get(v.elt):
+    if isinstance(vx, (ast.ListComp, ast.GeneratorExp)) and is_get(vx.elt):
         return True, v
     if isinstance(v, ast.Name):
+        from ..astutil import local_assignments
         defs = local_assignments(f.node, v.id)
-        if defs and all(is_get(d) for d in defs):
+        if defs and all(not isinstance(d, ast.AugAssign) and (is_get(x.expand(d)) or (isinstance(x.expand(d), ast.ListComp) and is_get(x.expand(d).elt))) for d in defs):
             return True, defs[0]
     return False, None
